@@ -61,6 +61,9 @@ func (conn *Conn) close() {
 	/* call FidDestroy for all remaining fids */
 	if op, ok := (conn.Srv.ops).(SrvFidOps); ok {
 		for _, fid := range conn.fidpool {
+			if !fid.destroyOnce() {
+				continue
+			}
 			op.FidDestroy(fid)
 		}
 	}
